@@ -170,7 +170,8 @@ class AsyncHTTP11Connection(AsyncConnectionInterface):
         await self._send_event(h11.EndOfMessage(), timeout=timeout)
 
     async def _send_event(self, event: h11.Event, timeout: float | None = None) -> None:
-        bytes_to_send = self._h11_state.send(event)
+        with map_exceptions({h11.LocalProtocolError: LocalProtocolError}):
+            bytes_to_send = self._h11_state.send(event)
         if bytes_to_send is not None:
             await self._network_stream.write(bytes_to_send, timeout=timeout)
 
